@@ -111,6 +111,15 @@ Record ucase := { u_name : str; u_tags : list str }.
 Definition ucase_model_ok (c : ucase) : bool := forallb (tag_has_form (u_name c)) (u_tags c).
 Definition ucase_prop_ok (c : ucase) : bool := nodupb (u_tags c) && (80 <=? via_boundary_bytes * 8).
 
+(* ---- the FIRST requests of a fresh instance, concurrent: every request is stamped with one and the same tag, and
+   every forwarded request, sent through the same instance again, is refused ---- *)
+Record fcase := { f_name : str; f_tags : list str; f_loopback_refused : list bool }.
+Definition fcase_model_ok (c : fcase) : bool := forallb (tag_has_form (f_name c)) (f_tags c).
+Definition fcase_prop_ok (c : fcase) : bool :=
+  match f_tags c with [] => true | t :: r => forallb (str_eqb t) r end &&
+  forallb (fun x => x) (f_loopback_refused c) &&
+  Nat.eqb (length (f_tags c)) (length (f_loopback_refused c)).
+
 (* indices (from 0) of the cases on which f fails *)
 Fixpoint bad_from {A} (f : A -> bool) (i : N) (l : list A) : list N :=
   match l with
